@@ -102,12 +102,13 @@ pub fn shrink(case: &Case, run: &dyn Fn(&Case) -> Verdict, budget: usize) -> (Ca
         }
     }
     // config simplifications
-    for f in 0..3 {
+    for f in 0..4 {
         if runs >= budget {
             break;
         }
         let mut c = best.clone();
         match f {
+            3 if c.via_iter => c.via_iter = false,
             0 if c.handle_cache => c.handle_cache = false,
             1 if c.sweep => c.sweep = false,
             2 if c.probe => c.probe = false,
